@@ -4,13 +4,16 @@
 // real connections to a scripted server on 127.0.0.1 (srvscript.h); replies are written by the
 // server with the sender class the behaviour prescribes and a distinct payload marker.
 //
-// Behaviour: {"steps":[{"a":"Open","k":"smr"},{"a":"Send","id":"i1","to":"full"},
+// Behaviour: {"steps":[{"a":"Open","k":"smr"},{"a":"Send","id":"i1","to":"full","c":"fresh|empty|dup-i2"},
 //                      {"a":"Recv","id":"i1","ty":"result","from":"bareOf"},{"a":"Close","k":"cut"},...]}
 // Trace line per step (see spec/IqTrackerTrace.tla): the step, for Recv the marker "m", and
 //   o = {req:{i1:{n,v,got},i2:…,i3:…}, passed:n, up:bool}
 //   n run count of the continuation, v what it saw ("none","result","error","local"), got the
 //   payload marker of the element / error text it was completed with, passed = iqReceived signals
 //   of this step (response IQs the tracker did not consume), up = isConnected().
+// Send lines also carry wk ("own": the stanza went out with the caller's id, "new": with another one,
+// "none": without an id) and clash (the id written is empty or that of a request still pending);
+// replies for request i carry the id request i's stanza was really written with.
 #include "qxv.h"
 #include "srvscript.h"
 
@@ -95,10 +98,11 @@ struct Env {
         }
     }
 
-    void send(const QString &id, const QString &to)
+    // callerId: what the application puts into the IQ (may be empty or the id of a pending request)
+    void send(const QString &id, const QString &to, const QString &callerId)
     {
         Rec &r = recs[id];
-        const auto realId = "q-" + id;
+        const auto realId = callerId;
         if (id == "i2") {
             // the generic variant: chainIq on top of the raw task
             QXmppIq iq(QXmppIq::Set);
@@ -163,6 +167,7 @@ void runBehaviour(Ctx &ctx, LoopPeer &peer, const QString &caseId, const QJsonAr
     ctx.out.flush();  // a crash inside the library must not lose the executions already recorded
     Env e(peer);
     QMap<QString, QString> toOf;
+    QMap<QString, QString> wireOf;  // the id each request's stanza was written with (read from what the client wrote)
     int stepNo = 0;
     for (const auto &sv : steps) {
         const auto s = sv.toObject();
@@ -199,8 +204,36 @@ void runBehaviour(Ctx &ctx, LoopPeer &peer, const QString &caseId, const QJsonAr
                 const qint64 sent0 = e.c->sentBytes, recv0 = peer.totalReceived;
                 const bool open = peer.isOpen();
                 toOf[id] = s["to"].toString();
-                e.send(id, s["to"].toString());
+                const auto cid = s["c"].toString("fresh");
+                QString callerId = "q-" + id;
+                if (cid == "empty") {
+                    callerId.clear();
+                } else if (cid.startsWith("dup-")) {
+                    callerId = wireOf.value(cid.mid(4), "q-" + cid.mid(4));
+                }
+                e.c->takeSent();
+                e.send(id, s["to"].toString(), callerId);
                 qxvDrain(2);
+                // the id that really went into the stanza: the peer can only answer with that one
+                QString wire;
+                bool seen = false;
+                for (const auto &x : std::as_const(e.c->sent)) {
+                    if (x.startsWith("<iq")) {
+                        wire = QxvXml(x).el.attribute("id");
+                        seen = true;
+                    }
+                }
+                if (!seen) {
+                    wire = callerId;  // nothing was serialised (cannot happen with the code as written)
+                }
+                bool clash = wire.isEmpty();
+                for (auto it = wireOf.constBegin(); it != wireOf.constEnd(); ++it) {
+                    const auto rit = e.recs.find(it.key());
+                    clash = clash || (it.value() == wire && rit != e.recs.end() && rit->second.n == 0);
+                }
+                wireOf[id] = wire;
+                ev["wk"] = wire.isEmpty() ? "none" : wire == callerId ? "own" : "new";
+                ev["clash"] = clash;  // empty, or equal to the id of a request that is still pending
                 if (open) {
                     ok = e.srv->flushClient(sent0, recv0);
                     why = "request did not reach the server";
@@ -211,21 +244,22 @@ void runBehaviour(Ctx &ctx, LoopPeer &peer, const QString &caseId, const QJsonAr
             const auto id = s["id"].toString();
             const auto ty = s["ty"].toString();
             const auto from = fromJid(toOf.value(id, "none"), s["from"].toString());
+            const auto wid = wireOf.value(id, "q-" + id);  // the reply carries the id the request went out with
             const auto fromA = from.isEmpty() ? QString() : QStringLiteral(" from='%1'").arg(from);
             ev["m"] = stepNo;
             QString xml;
-            if (ty == "result" || ty == "set") {
-                xml = QStringLiteral("<iq type='%1' id='q-%2'%3 to='%4'><x xmlns='urn:qxv:m' n='%5'/></iq>")
-                          .arg(ty, id, fromA, kOwnFull)
+            if (ty == "result" || ty == "set" || ty == "get") {
+                xml = QStringLiteral("<iq type='%1' id='%2'%3 to='%4'><x xmlns='urn:qxv:m' n='%5'/></iq>")
+                          .arg(ty, wid, fromA, kOwnFull)
                           .arg(stepNo);
             } else if (ty == "error") {
-                xml = QStringLiteral("<iq type='error' id='q-%1'%2 to='%3'><error type='cancel'><item-not-found "
+                xml = QStringLiteral("<iq type='error' id='%1'%2 to='%3'><error type='cancel'><item-not-found "
                                      "xmlns='urn:ietf:params:xml:ns:xmpp-stanzas'/><text xmlns='urn:ietf:params:xml:ns:xmpp-stanzas'>m%4</text>"
                                      "</error></iq>")
-                          .arg(id, fromA, kOwnFull)
+                          .arg(wid, fromA, kOwnFull)
                           .arg(stepNo);
             } else {  // errorBare: type error without an <error/> child
-                xml = QStringLiteral("<iq type='error' id='q-%1'%2 to='%3'/>").arg(id, fromA, kOwnFull);
+                xml = QStringLiteral("<iq type='error' id='%1'%2 to='%3'/>").arg(wid, fromA, kOwnFull);
             }
             ok = e.srv->deliver(xml);
             why = e.srv->why;
